@@ -25,6 +25,7 @@ THEOREMS = [
     "SleapVerif.C20.merge_idempotent",
     "SleapVerif.C20.merge_lossless",
     "SleapVerif.C20.verify_lossless",
+    "SleapVerif.C20.verify_lossless_top_level",
     "SleapVerif.C20.verify_idempotent",
     "SleapVerif.C20.verify_complete_fixed_point",
     "SleapVerif.C20.construct_places",
@@ -660,6 +661,26 @@ def expand_default(impl: Impl, kind):
     return d
 
 
+CM_CLS = {"single_instance": "SingleInstanceConfMapsConfig", "centroid": "CentroidConfMapsConfig",
+          "centered_instance": "CenteredInstanceConfMapsConfig", "bottomup": "BottomUpConfMapsConfig"}
+PRESET_CLS = {"unet": "UNetConfig", "unet_medium_rf": "UNetMediumRFConfig", "unet_large_rf": "UNetLargeRFConfig",
+              "convnext": "ConvNextConfig", "convnext_tiny": "ConvNextConfig", "convnext_small": "ConvNextSmallConfig",
+              "convnext_base": "ConvNextBaseConfig", "convnext_large": "ConvNextLargeConfig", "swint": "SwinTConfig",
+              "swint_tiny": "SwinTConfig", "swint_small": "SwinTSmallConfig", "swint_base": "SwinTBaseConfig"}
+
+
+def rest_default(sub, supplied, dflt, label):
+    """every option of a sub-configuration the caller did not supply equals the schema class default"""
+    if not isinstance(sub, dict):
+        return f"{label} is not set"
+    if set(sub) != set(dflt):
+        return f"keys of {label} differ from the schema's"
+    for k, v in dflt.items():
+        if k not in supplied and sub[k] != v:
+            return f"option {label}.{k} = {untag(sub[k])!r} was not supplied, schema default is {untag(v)!r}"
+    return None
+
+
 def oracle_builder(impl: Impl, kind, kw):
     """C20 on a data/model/trainer builder call with valid arguments: every supplied argument is
     read back at its documented place, every other option has the schema default, the key set is the
@@ -708,11 +729,14 @@ def oracle_builder(impl: Impl, kind, kw):
             for n in aug_names(full["geometry_aug"], GEO) or []:
                 if not geo_enabled(n, a["geometric"]):
                     return f"geometric augmentation {n} not enabled"
-            for nm, sub in (("intensity_aug", "intensity"), ("geometry_aug", "geometric")):
+            for nm, sub, c in (("intensity_aug", "intensity", "IntensityConfig"), ("geometry_aug", "geometric", "GeometricConfig")):
                 if isinstance(full[nm], dict):
                     for k, v in full[nm].items():
                         if a[sub].get(k, "<absent>") != tag(v):
                             return f"{nm}[{k}] not reflected"
+                    w = rest_default(a[sub], full[nm], impl.defaults[c], f"augmentation_config.{sub}")
+                    if w:
+                        return w
         elif get(out, ("augmentation_config",)) is not None:
             return "augmentation_config set although use_augmentations_train is False"
     if kind == "model":
@@ -722,6 +746,10 @@ def oracle_builder(impl: Impl, kind, kw):
             fam = "unet" if b.startswith("unet") else "convnext" if b.startswith("convnext") else "swint"
             if not isinstance(bb.get(fam), dict) or sum(v is not None for v in bb.values()) != 1:
                 return f"preset {b}: backbone_config.{fam} is not the only backbone set"
+            if b in PRESET_CLS:
+                w = rest_default(bb[fam], {}, impl.defaults[PRESET_CLS[b]], f"backbone_config.{fam} (preset {b})")
+                if w:
+                    return w
         elif isinstance(b, dict) and b:
             fam = next((f for f in ("unet", "convnext", "swint") if f in b), None)
             if fam and not isinstance(bb.get(fam), dict):
@@ -729,9 +757,15 @@ def oracle_builder(impl: Impl, kind, kw):
             for k, v in (b[fam].items() if fam else []):
                 if get(bb, (fam, k)) != tag(v):
                     return f"backbone_config[{fam}][{k}] not reflected"
+            if fam:
+                w = rest_default(bb[fam], b[fam], impl.defaults[BB_CLS[fam]], f"backbone_config.{fam}")
+                if w:
+                    return w
         if isinstance(h, str):
             if not isinstance(hd.get(h), dict) or sum(v is not None for v in hd.values()) != 1:
                 return f"head {h} is not the only head set"
+            if hd[h] != impl.defaults[HD_CLS[h]]:
+                return f"head_configs.{h}: " + first_diff(hd[h], impl.defaults[HD_CLS[h]]) + " (schema default)"
         elif isinstance(h, dict):
             first = next((f for f in HEADS if h.get(f) is not None), None)
             if first:
@@ -741,6 +775,11 @@ def oracle_builder(impl: Impl, kind, kw):
                     for k, v in kws.items():
                         if get(hd, (first, layer, k)) != tag(v):
                             return f"head_configs[{first}][{layer}][{k}] not reflected"
+                    if layer in ("confmaps", "pafs"):
+                        c = CM_CLS[first] if layer == "confmaps" else "PAFConfig"
+                        w = rest_default(get(hd, (first, layer)), kws, impl.defaults[c], f"head_configs.{first}.{layer}")
+                        if w:
+                            return w
     if kind == "trainer":
         s = full["lr_scheduler"]
         ls = out["lr_scheduler"]
@@ -754,6 +793,10 @@ def oracle_builder(impl: Impl, kind, kw):
                 for k, v in s[first].items():
                     if get(ls, (first, k)) != tag(v):
                         return f"lr_scheduler[{first}][{k}] not reflected"
+                c = "StepLRConfig" if first == "step_lr" else "ReduceLROnPlateauConfig"
+                w = rest_default(ls[first], s[first], impl.defaults[c], f"lr_scheduler.{first}")
+                if w:
+                    return w
     return None
 
 
@@ -776,8 +819,21 @@ def oracle_verify(impl: Impl, cfg):
         p = os.path.join(d, "c.yaml")
         OC.save(v, p)
         back = tag(OC.to_container(OC.load(p)))
-    if back != tv:
-        return "YAML save/load changed the configuration"
+        if back != tv:
+            return "YAML save/load changed the configuration: " + first_diff(back, tv)
+        # the other order: the caller's file first goes through YAML, then through normalisation
+        p0 = os.path.join(d, "c0.yaml")
+        OC.save(c, p0)
+        loaded = OC.load(p0)
+        tl = tag(OC.to_container(loaded))
+        if tl != tag(cfg):
+            return "YAML save/load changed the caller's configuration: " + first_diff(tl, tag(cfg))
+        r3 = call(impl.tj.verify_training_cfg, loaded)
+        if r3[0] == "raise":
+            return f"normalisation raised {r3[1]} on the YAML copy of a configuration it accepts"
+        t3 = tag(OC.to_container(r3[1]))
+        if t3 != tv:
+            return "load-then-normalise differs from normalise-then-save/load: " + first_diff(t3, tv)
     return None
 
 
@@ -1280,6 +1336,8 @@ def build_cases(chk: Check, impl: Impl):
     # --- data / model / trainer builders
     cases.append({"op": "data", "kw": {"train_labels_path": "t.slp", "val_labels_path": "v.slp"}})
     cases.append({"op": "model", "kw": {}})
+    cases.append({"op": "model", "kw": {"head_configs": {"bottomup": {"confmaps": {"output_stride": 2, "sigma": 2.5}, "pafs": {}}}}})
+    cases.append({"op": "model", "kw": {"head_configs": {"bottomup": {"confmaps": {}, "pafs": {"output_stride": 4, "sigma": 4.0}}}}})
     cases.append({"op": "trainer", "kw": {}})
     for ls in ({"step_lr": {}}, {"reduce_lr_on_plateau": {}}, {"step_lr": None, "reduce_lr_on_plateau": {}}):
         cases.append({"op": "trainer", "kw": {"lr_scheduler": ls}})
@@ -1317,6 +1375,106 @@ def build_cases(chk: Check, impl: Impl):
             continue
         cases.append({"op": "merge", "s": s, "c": c})
     return cases
+
+
+def field_types(impl: Impl):
+    """field name -> type annotation text, over all schema classes (used only to pick a sentinel for a leaf
+    whose default is None)"""
+    out = {}
+    for c in impl.classes.values():
+        for a in c.__attrs_attrs__:
+            out.setdefault(a.name, str(a.type))
+    return out
+
+
+def sentinel(path, t, types):
+    """a value of the leaf's type that differs from the schema default `t` (typed canonical form)"""
+    if t is None:
+        ann = types.get(path[-1], "")
+        if "bool" in ann:
+            return True
+        if "int" in ann and "List" not in ann and "Tuple" not in ann:
+            return 7
+        if "float" in ann and "List" not in ann:
+            return 0.625
+        if "List[List" in ann:
+            return [["s1", "s2"], ["s2", "s3"]]
+        if "List[str" in ann:
+            return ["s1", "s2"]
+        if "List" in ann or "Tuple" in ann or "list" in ann:
+            return [3, 5]
+        if "dict" in ann:
+            return {"sentinel": [1, "x"]}
+        return "sentinel-" + path[-1]
+    k, v = t
+    if k == "b":
+        return not v
+    if k == "i":
+        return v + 17
+    if k == "f":
+        return float(v) * 0.5 + 0.375 if not isinstance(v, str) else 0.375
+    if k == "s":
+        if v == "???":
+            return "sentinel/" + path[-1] + ".slp"
+        return (v or "0.0.0") + "-other"
+    if k == "L":
+        return [sentinel(path, x, types) for x in v] + [sentinel(path, v[0], types)] if v else ["sentinel"]
+    raise ValueError(k)
+
+
+def complete_bases(impl: Impl):
+    """complete configuration trees built from the SCHEMA (the class-default trees sent to the driver):
+    TrainingJobConfig defaults with every optional sub-configuration instantiated, one variant per backbone /
+    head / scheduler type so that every leaf of every schema class occurs in some base"""
+    D = impl.defaults
+    variants = [("unet", "UNetConfig", "single_instance", "SingleInstanceConfig", "step_lr", "StepLRConfig"),
+                ("convnext", "ConvNextConfig", "centroid", "CentroidConfig", "reduce_lr_on_plateau", "ReduceLROnPlateauConfig"),
+                ("swint", "SwinTConfig", "centered_instance", "CenteredInstanceConfig", "step_lr", "StepLRConfig"),
+                ("unet", "UNetLargeRFConfig", "bottomup", "BottomUpConfig", "reduce_lr_on_plateau", "ReduceLROnPlateauConfig")]
+    for bf, bc, hf, hc, sf, sc in variants:
+        t = json.loads(json.dumps(untag(D["TrainingJobConfig"])))
+        t["data_config"]["augmentation_config"] = untag(D["AugmentationConfig"])
+        t["model_config"]["backbone_config"][bf] = untag(D[bc])
+        t["model_config"]["head_configs"][hf] = untag(D[hc])
+        t["trainer_config"]["lr_scheduler"] = untag(D["LRSchedulerConfig"])
+        t["trainer_config"]["lr_scheduler"][sf] = untag(D[sc])
+        t["trainer_config"]["early_stopping"] = untag(D["EarlyStoppingConfig"])
+        t["data_config"]["train_labels_path"] = "train.pkg.slp"      # the two mandatory values
+        t["data_config"]["val_labels_path"] = "val.pkg.slp"
+        yield f"{bf}/{hf}/{sf}", json.loads(json.dumps(t))
+
+
+def set_path(t, p, v):
+    for k in p[:-1]:
+        t = t[k]
+    t[p[-1]] = v
+
+
+def sentinel_cases(chk: Check, impl: Impl):
+    """complete configurations in which a leaf carries a non-default value of its type: one configuration per
+    leaf (every leaf of every schema class, incl. the top-level metadata name / description / sleap_nn_version /
+    filename) + one all-sentinel configuration per base — what a training_config.yaml written elsewhere (another
+    release, another user) looks like.  Each goes through verify_training_cfg, YAML save/load, and both orders."""
+    types = field_types(impl)
+    done = set()
+    for name, base in complete_bases(impl):
+        allc = json.loads(json.dumps(base))
+        for p, x in leaves(tag(base)):
+            set_path(allc, p, sentinel(p, x, types))
+        yield {"op": "verify", "cfg": allc, "kind": "sentinel: every leaf", "base": name}
+        if not done:
+            for k, x in base.items():     # optional top-level metadata explicitly None (e.g. no version recorded)
+                if not isinstance(x, dict):
+                    one = json.loads(json.dumps(base))
+                    one[k] = None
+                    yield {"op": "verify", "cfg": one, "kind": "sentinel: top-level None", "leaf": k, "base": name}
+        for p, x in leaves(tag(base)):
+            if p in done:
+                continue
+            done.add(p)
+            one = json.loads(json.dumps(base))
+            set_path(one, p, sentinel(p, x, types))
+            yield {"op": "verify", "cfg": one, "kind": "sentinel: one leaf", "leaf": ".".join(p), "base": name}
 
 
 def verify_cases(chk: Check, impl: Impl):
@@ -1359,6 +1517,7 @@ def verify_cases(chk: Check, impl: Impl):
             part["data_config"]["extra"] = {"k": [1, 2.5, "z"]}
             part["data_config"]["skeletons"] = {"sk": {"nodes": ["a", "b"], "edges": [[0, 1]]}}
             out.append({"op": "verify", "cfg": part, "kind": "extra nested keys"})
+    out += list(sentinel_cases(chk, impl))
     out.append({"op": "verify", "cfg": {}, "kind": "empty"})
     out.append({"op": "verify", "cfg": {"data_config": {"train_labels_path": "x"}}, "kind": "sparse"})
     return out
@@ -1587,6 +1746,7 @@ def main(chk: Check):
     chk.build_and_audit()
     impl = Impl()
     replay_known(chk, impl)
+    impl.env_lines()                     # computes impl.defaults (the schema trees) from the working tree
     cases = build_cases(chk, impl)
     cases += verify_cases(chk, impl)
     corpus = sorted((chk_path("corpus") / "C20").glob("*.json")) if (chk_path("corpus") / "C20").is_dir() else []
